@@ -111,9 +111,6 @@ SPEC = {
         'raise Error("only one claim per connection")', 'raise Error("a connection may claim once")'),
     "spec-S4-boundary-inclusive": (S + "server.py",
         '            if row["updated"] > old:', '            if row["updated"] >= old:'),
-    "spec-S6-claim-single-commit": (S + "server.py",
-        "            # since that might cause a new mailbox to be allocated\n        db.commit()\n",
-        "            # since that might cause a new mailbox to be allocated\n"),
     "spec-S7-prune-frees-mailbox-objects": (S + "server.py",
         "        in_use = bool(self._mailboxes)\n",
         "        for mailbox_id in old_mailboxes:\n            self._mailboxes.pop(mailbox_id, None)\n        in_use = bool(self._mailboxes)\n"),
